@@ -209,4 +209,24 @@ PROPS["C16"] = {
                   "pairwise runs on the real proxy check.",
 }
 
+PROPS["C11"] = {
+    "drivers": [MAIN, dict(COOKIE, prop="C11")],
+    "rule": "histories on the real proxy: a stale session (so that the next request refreshes and re-saves) of size small/large, k in {0,1} "
+            "requests before sign-out (k=0: the refresh happens inside the sign-out request), refresh growing or shrinking the session "
+            "across the split threshold, sign-out via GET/POST with/without rd, 4 store/domain configurations (cookie store, server-side "
+            "store, nested cookie domains), and for the server-side store the delete failing before/after taking effect; then the jar and "
+            "every cookie the browser ever held are replayed against /oauth2/userinfo; plus the cookie-store Clear correspondence of C10; "
+            "non-trivial = all",
+    "assumptions": ["HMAC modelled as a function (table); the store is an association list in the model",
+                    "lock keys (`<ticket>.lock`) are not session entries"],
+    "trusted_base": ["net/http/cookiejar as the browser"],
+    "level_text": "c11_cookies (every presented cookie of the session family is deleted under its own name with the configured path and "
+                  "selected domain), c11_success_implies_deleted and c11_error (server-side store: success redirect only if the delete "
+                  "succeeded; a failed delete gives the error page), c11_ticket_cookie_deleted, c11_stays_deleted (induction over every later "
+                  "history of store operations not re-writing the key) and c11_replay (no cookie resolving to the deleted ticket loads a "
+                  "session) are proved on the Gallina model of SignOut / Manager.Clear / cookie-store Clear; the model and oracles are "
+                  "compared with the real proxy on sign-out histories on every run.",
+    "level_note": "interleavings of a sign-out with a concurrent refreshing request are explored under C12's scheduler, not here.",
+}
+
 NOT_APPLICABLE = {}
